@@ -351,6 +351,14 @@ class FrameOps:
         st, m = call(frame_model_from, r)
         if st == 'raise':
             raise Violation(f'{self.profile}.lockstep' if self.profile == 'C09' else f'{self.profile}.bijection', site, 'new-unreadable', f'{type(m).__name__}: {m}')
+        def has_nan(ixm):
+            for lab in ixm.raw:
+                for x in (lab if isinstance(lab, tuple) else (lab,)):
+                    if isinstance(x, float) and x != x:
+                        return True
+            return False
+        if has_nan(m.index) or has_nan(m.columns):
+            return 'nan-labels'  # equality-based lookup is undefined for NaN labels: outside the claims
         e = self.add('fr', r, m, is_go(type(r).__name__), origin=site, h=h)
         st, s = call(snap_frame, r)
         if st == 'ok':
